@@ -193,7 +193,7 @@ def stkCfgOf (syms : List (String × String)) : Staking.Cfg :=
   { pool := "staking_module", valid := fun a => isBound syms a }
 
 def stkChainOf (ch : DChain) (blk : Block) : Staking.Chain :=
-  { st := ch.ext.stk, bank := ch.bank, time := blk.time / 1000000000, height := blk.height }
+  { st := ch.ext.stk, bank := ch.bank, time := blk.time, height := blk.height }
 
 def stkBack (ch : DChain) (sc : Staking.Chain) : DChain :=
   { ch with bank := sc.bank, ext := { ch.ext with stk := sc.st } }
@@ -443,13 +443,13 @@ def scripted (tag : String) : Code DExt where
       | .reply r => bytesStr r.payload
     match scriptOf text with
     | some acts =>
-      let (res, notes) := interp (_env.block.time / 1000000000) ch false acts own {} []
+      let (res, notes) := interp _env.block.time ch false acts own {} []
       (res, tag ++ "|" ++ hex32 (fnv text) ++ "|" ++ ";".intercalate notes)
     | none => (.err, tag ++ "|" ++ hex32 (fnv text) ++ "|unparsed")
   query := fun m _env ch own =>
     match scriptOf (unquote (bytesStr m)) with
     | some acts =>
-      match interp (_env.block.time / 1000000000) ch true acts own {} [] with
+      match interp _env.block.time ch true acts own {} [] with
       | (.ok _, notes) => .ok (strBytes ("\"" ++ tag ++ ":" ++ ";".intercalate notes ++ "\""))
       | _ => .err
     | none => .err
